@@ -188,7 +188,17 @@ def run(eng, rep) -> None:
                 it = n.iter
                 if (isinstance(it, ast.Name) and rnames.get(it.id) == "rest") or norm(it) == c.children_src:
                     loopvars[n.target.id] = "elem"
+        shadowed = set()
+        for lam in ast.walk(fdef.node):
+            if isinstance(lam, ast.Lambda):
+                ps_ = {a.arg for a in lam.args.args}
+                for y in ast.walk(lam.body):
+                    if isinstance(y, ast.Name) and y.id in ps_:
+                        shadowed.add(id(y))
+
         def is_result_ref(x: ast.AST) -> bool:
+            if id(x) in shadowed:
+                return False
             if isinstance(x, ast.Name) and (rnames.get(x.id) == "idx" or x.id in loopvars) and isinstance(x.ctx, ast.Load):
                 return True
             if isinstance(x, ast.Subscript) and norm(x.value) == c.children_src and isinstance(x.slice, ast.Constant) and x.slice.value in res_idx:
